@@ -13,3 +13,11 @@ package scorer
 //@   requires s != nil && len(constituents) > 0 && forall(k, 0, len(constituents), constituents[k] != nil)
 //@   modifies constituents[0].Score, constituents[0].Expl, constituents[0].FieldTermLocations
 //@   ensures result == constituents[0]
+
+// the kNN variant (score and explanation breakdown) is not under contract; callers under contract require it off
+//@ func DisjunctionQueryScorer.ScoreAndExplBreakdown
+//@   props C08 C02
+//@   mode int
+//@   trusted the kNN score-breakdown variant is not under contract
+//@   requires s != nil
+//@   modifies fields(search.DocumentMatch), mem(*search.DocumentMatch), search.DocumentMatchPool.avail
